@@ -78,10 +78,13 @@ Inductive case :=
 (* [threads] goroutines x [per] lookups with the random picker on a route with [ntargets] targets whose
    ring is [ring]: picks per target, recovered panics, picks that are not a target of the route *)
 | CRndConc (ring : list nat) (threads per : nat) (impl_counts : list nat) (impl_panics impl_foreign : nat)
-(* sequential Table.Lookup on a table given as candidate hosts in visiting order; the cursor of
-   the answering route is [cursor]; impl = (host idx, route idx, target idx, Location) *)
-| CLookup (hosts : list (list route)) (path host : str) (cursor : N)
-          (impl : option (nat * nat * nat * option str)).
+(* sequential Table.Lookup on a table given as candidate hosts in visiting order, run TWICE on the real table:
+   run 1 with every cursor = [cursor] (impl = (host idx, route idx, target idx, Location); [after] = the
+   cursors of the candidate hosts' routes afterwards); run 2 with the answering route's cursor = [cursor]
+   again but DIFFERENT cursors on every other route ([others]: those of the candidate hosts' routes) and a
+   different glob cache state (impl2) *)
+| CLookup (hosts : list (list route)) (path host proto : str) (cursor : N) (after : list (list N))
+          (others : list (list N)) (impl impl2 : option (nat * nat * nat * option str)).
 
 Definition res_eqb (m : option lk_result) (i : option (nat * nat * nat * option str)) : bool :=
   match m, i with
@@ -175,15 +178,28 @@ Definition check_case (c : case) : N :=
                   && Nat.eqb (sum_nat impl_counts) (threads * per)
                   && all2 (fun t cnt => Nat.eqb cnt 0 || existsb (Nat.eqb t) ring) (seq 0 (length impl_counts)) impl_counts in
       verdict same same None (Nat.ltb 1 threads)
-  | CLookup hosts path host cursor impl =>
+  | CLookup hosts path host proto cursor after others impl impl2 =>
       let s0 := {| lk_cursor := fun _ => cursor; lk_redirect := fun _ => None |} in
-      match fst (lookup hosts path host s0) with
+      let '(m, s1) := lookup hosts path host proto s0 in
+      match m with
       | Ok m =>
-          let same := res_eqb m impl in
-          (* the result is a function of table, request and the one cursor: the lookup with
-             every other piece of shared state changed gives the same answer *)
-          let s1 := {| lk_cursor := fun _ => cursor; lk_redirect := fun _ => Some path |} in   (* other shared state changed *)
-          let spec := match fst (lookup hosts path host s1) with Ok m1 => res_eqb m1 impl | _ => false end in
+          (* run 1: answer and every candidate route's cursor afterwards (C06_lookup_frame on the real code) *)
+          let frame := all2 (fun i row => all2 (fun j c => N.eqb (lk_cursor s1 (i, j)) c) (seq 0 (length row)) row)
+                            (seq 0 (length after)) after
+                       && Nat.eqb (length after) (length hosts) in
+          (* run 2: the model with cursors differing off the answering route *)
+          let f2 := fun id : rid => match m with
+                                    | Some r => if eq_rid id (lk_route r) then cursor else nth (snd id) (nth (fst id) others []) 0%N
+                                    | None => nth (snd id) (nth (fst id) others []) 0%N
+                                    end in
+          let m2ok := match lookup_pure hosts path host proto f2 with Ok m2 => res_eqb m2 impl2 | _ => false end in
+          let same := res_eqb m impl && frame && m2ok in
+          (* the property on the real code alone: the answer does not depend on the other routes' cursors
+             nor on the glob cache *)
+          let spec := opt_eqb (fun a b => match a, b with
+                                          | (h1, j1, t1, l1), (h2, j2, t2, l2) =>
+                                              Nat.eqb h1 h2 && Nat.eqb j1 j2 && Nat.eqb t1 t2 && opt_eqb beq l1 l2
+                                          end) impl impl2 in
           verdict same spec None (match m with Some _ => true | None => false end)
       | _ => 3%N
       end
